@@ -222,6 +222,17 @@ func genCaseFor(p Profile) func(t *rapid.T) Case {
 				Link:  rapid.SampledFrom([]int{0, 0, 0, 0, 2, 1}).Draw(t, "link"),
 			})
 		}
+		if p.Localhost > 50 {
+			// the scope property needs both kinds of faces, and /localhost routes towards both
+			c.Cfg.Faces[0].Local, c.Cfg.Faces[1].Local = true, false
+			if nf > 2 {
+				c.Cfg.Faces[2].Local = true
+			}
+			c.Ops = append(c.Ops, Op{K: "fibins", N: "/localhost", F: 2, Cost: 1})
+			if nf > 2 {
+				c.Ops = append(c.Ops, Op{K: "fibins", N: "/localhost", F: 3, Cost: uint64(rapid.IntRange(0, 2).Draw(t, "lcost"))})
+			}
+		}
 		c.Cfg.Algo = rapid.SampledFrom([]string{"nametree", "hashtable"}).Draw(t, "algo")
 		c.Cfg.M = rapid.IntRange(1, 4).Draw(t, "m")
 		cs := rapid.IntRange(0, 99).Draw(t, "cs") < p.CsOn
